@@ -26,7 +26,10 @@
    Properties (C37):  R1  forwards are queued for / delivered to a listener only if it registered
    exactly their target, and opens whose target nobody registered are rejected;  R2  Close returns
    (liveness; weak fairness on every step of the library, none on the application's decision to
-   call Accept);  R3  an Accept call made after Close returned yields an error, and returns. *)
+   call Accept);  R3  an Accept call made after Close returned yields an error, and returns.
+   R1 also has a decidedness half (R1_Decided, R1_DecidedOnceClosed): every open is either delivered or
+   rejected; the forward parked in forward()'s send/closed select when its listener is closed, and the one
+   queued in the listener's 1-slot channel, are rejected -- none is left without an answer. *)
 EXTENDS Integers, Sequences, FiniteSets, TLC
 
 CONSTANTS Listeners,    \* listener ids
@@ -304,6 +307,19 @@ R2_CloseReturns == \A l \in Listeners : (cpc[l] = "wantLock") ~> (cpc[l] = "done
 \* R3: an Accept call that began after Close returned does not yield a connection, and returns
 R3_AcceptAfterCloseErr == \A l \in Listeners : (aAfter[l] /\ apc[l] = "idle") => aRes[l] # "conn"
 R3_AcceptAfterCloseReturns == \A l \in Listeners : (aAfter[l] /\ apc[l] # "idle") ~> (apc[l] = "idle")
+\* R1, decidedness: every forwarded open is either delivered to an Accept call or rejected.  When the library is
+\* quiescent, an open without an answer is waiting for the APPLICATION: it sits in the queue of a listener that is
+\* still open, or it is (behind) the forward that a dispatcher has parked in the send/closed select of a listener that
+\* is still open.  In particular the forward that was parked in forward() when its listener was closed (queue
+\* capacity 1, >= 2 opens, no Accept) must have been rejected (DSendClosed), as must the one that was queued (CDrain).
+Undecided(o) == ost[o] \in {"inflight", "buffered"}
+WaitingForApp(o) == \/ \E l \in Listeners : ~closedCh[l] /\ \E i \in 1..Len(buf[l]) : buf[l][i] = o
+                    \/ \E d \in Disp : /\ dpc[d] = "send" /\ ~closedCh[dent[d]]
+                                        /\ (dcur[d] = o \/ \E i \in 1..Len(inbox[d]) : inbox[d][i] = o)
+R1_Decided == (~ENABLED Internal) => \A o \in OpenIds : Undecided(o) => WaitingForApp(o)
+\* ... and once every listener is closed, every open that was sent gets its answer
+AllClosed == \A l \in Listeners : cpc[l] = "done"
+R1_DecidedOnceClosed == \A o \in OpenIds : (Undecided(o) /\ AllClosed) ~> (ost[o] \in {"delivered", "rejected"})
 \* safety forms of R2/R3-liveness: the library is never quiescent (no step of the dispatchers, of Close or of a
 \* started Accept enabled) with a Close waiting for the list mutex / an after-Close Accept call still pending.
 \* In such a state only the application's decision to Accept more could help, which the property does not allow to rely on.
